@@ -1,8 +1,8 @@
 """C05 — mutations through child views propagate to every enclosing view."""
 from hist import *  # noqa
 
-THEOREMS = ["C05_propagate", "C05_parent_reads_child", "C05_frame", "C05_container_child", "C05_vector_child", "C05_list_child"]
-PARTIAL = ["store level: one hook level (C05_propagate / C05_parent_reads_child / C05_frame); value level: writing a child's new backing into a container / vector / list parent yields the parent's updated value with the fresh root and encoding, composable along any chain (C05_*_child); that the Python hook chain performs exactly these writes for every set of simultaneously held views, in any order, is tied by the correspondence (random interleavings over nested views, every enclosing view compared with the shadow value after each step)"]
+THEOREMS = ["C05_propagate", "C05_parent_reads_child", "C05_frame", "C05_container_child", "C05_vector_child", "C05_list_child", "C05_chain_get", "C05_chain_value", "C05_chain_set", "C05_cmd_on_chain", "C05_chain_observed", "C05_chain_nonvacuous"]
+PARTIAL = ["the model theorem is complete for hook chains of any depth (C05_cmd_on_chain: every mutating command through the bottom view of a chain of held views updates every enclosing view to its value with the nested slot replaced, or fails and changes nothing; C05_chain_get / C05_chain_value: chains arise from [i] / .field / value()). Not one theorem: the closure over arbitrary FORESTS of held views under arbitrary interleavings (a pop / union change in a parent makes the hooks of child views obtained earlier stale; the theorem applies to every view whose chain is valid at that moment) and that the Python closures are the hooks of the model: tied by the correspondence (random interleavings, element views obtained by index, iteration and slices)"]
 COQ_IMPORTS = ["RM.Types", "RM.ModelStore", "RMR.RunH"]
 COQ_FN = "RunH.run"
 COQ_CASE_TY = "RunH.case"
